@@ -262,6 +262,8 @@ namespace Givaro {
     // Euclidian division
     Integer& Integer::divmod(Integer& q, Integer& r, const Integer &a, const Integer &b)
     {
+        // b is read again after q and r have been written: keep its value if it is one of them
+        if (&b == &q || &b == &r) { const Integer bcopy(b); return divmod(q, r, a, bcopy); }
         mpz_tdiv_qr( (mpz_ptr)&(q.gmp_rep), (mpz_ptr)&(r.gmp_rep),
                      (mpz_srcptr)&(a.gmp_rep), (mpz_srcptr)&(b.gmp_rep));
 
@@ -293,10 +295,11 @@ namespace Givaro {
         r = (int64_t)res;
         return q;
 #else
+        const bool aneg = (a<0); // a may be the same object as q
         r = (int64_t)mpz_tdiv_q_ui( (mpz_ptr)&(q.gmp_rep),
                                     (mpz_srcptr)&(a.gmp_rep), std::abs(b));
 
-        if (a<0 && r) {
+        if (aneg && r) {
             // :GMPUintTDiv
             subin(q,(int64_t)1) ;
             r = std::abs(b) - r ;
@@ -316,10 +319,11 @@ namespace Givaro {
         r = (uint64_t)res; // divmod already corrects when a<0
         return q;
 #else
+        const bool aneg = (a<0); // a may be the same object as q
         r = mpz_tdiv_q_ui( (mpz_ptr)&(q.gmp_rep),
                            (mpz_srcptr)&(a.gmp_rep), b);
 
-        if (a<0 && r) {
+        if (aneg && r) {
             subin(q,(int64_t)1) ;
             // :GMPUintTDiv The GMP documentation specifies that:
             // 'For the ui variants (...) tdiv and cdiv the remainder can be negative,
